@@ -107,6 +107,12 @@ pub enum Ph {
     TInt(i64, u64),
     #[strum(to_string = "no placeholder {{}}")]
     Plain(Ch),
+    #[strum(to_string = "{{0}} = {0}")]
+    TLookalike(Ch),
+    #[strum(to_string = "{{1}}{1}{{0{0}}}")]
+    TLookalike2(Ch, Ch),
+    #[strum(to_string = "{{x}}={x} {{x:>3}}")]
+    NLookalike { x: Ch },
 }
 pub fn format_stub(args: core::fmt::Arguments<'_>) -> alloc::string::String {
     let mut b = Buf::<48>::new();
@@ -122,6 +128,9 @@ PH = [
     ("t2rep", True, "let (x, y) = (Ch(nd_u8()), Ch(nd_u8()));", "Ph::T2rep(x, y)", "x, y", "{0}{0}-{1}", True),
     ("tesc", True, "let x = Ch(nd_u8());", "Ph::TEsc(x)", "x", "{{{0}}}", True),
     ("tspec", True, "let (x, y, z) = (Ch(nd_u8()), Ch(nd_u8()), Ch(nd_u8()));", "Ph::TSpec(x, y, z)", "x, y, z", "[{0:>4}|{1:*<3}]{2}", True),
+    ("tlookalike", True, "let x = Ch(nd_u8());", "Ph::TLookalike(x)", "x", "{{0}} = {0}", True),
+    ("tlookalike2", True, "let (x, y) = (Ch(nd_u8()), Ch(nd_u8()));", "Ph::TLookalike2(x, y)", "x, y", "{{1}}{1}{{0{0}}}", True),
+    ("nlookalike", False, "let x = Ch(nd_u8());", "Ph::NLookalike { x }", "x = x", "{{x}}={x} {{x:>3}}", True),
     ("n", False, "let (y, w) = (Ch(nd_u8()), Ch(nd_u8()));", "Ph::N { y, w, unused: nd_u8() }", "y = y, w = w", "x{y}z{{}}{w}", True),
     ("norder", False, "let (y, w) = (Ch(nd_u8()), Ch(nd_u8()));", "Ph::NOrder { y, w }", "y = y, w = w", "{w}{y}{w}", True),
     ("nspec", False, "let (y, w) = (Ch(nd_u8()), Ch(nd_u8()));", "Ph::NSpec { y, w }", "y = y, w = w", "<{y:^5}>{{{w:.0}}}", True),
